@@ -189,6 +189,11 @@ func (l *loaded) refOf(m proto.Message) elRef {
 	}
 	pi, ok := l.an.Ptrs[m]
 	if !ok {
+		// google/fhir's storage marker on a primitive without a value is not a
+		// FHIR element and has no node; name it so the judge's signature is specific
+		if x, isExt := m.(*dtpb.Extension); isExt && x.GetUrl().GetValue() == "https://g.co/fhir/StructureDefinition/primitiveHasNoValue" {
+			pn = "Extension:primitiveHasNoValue"
+		}
 		return elRef{K: "unknown", Addr: []int{}, Pn: pn}
 	}
 	k := "node"
